@@ -29,6 +29,9 @@ def check(repo: Repo, rep, tier):
     lookup(repo, rep)
     storage_anchor(repo, rep)
     files_registered(repo, rep)
+    scan_total(repo, rep)
+    suffix_shape(repo, rep)
+    storage_no_cache(repo, rep)
 
 
 def content_addr(repo: Repo, rep):
@@ -484,3 +487,117 @@ def files_registered(repo: Repo, rep):
         )
     else:
         rep.ok("R-FILES-REGISTERED", f, adds[0].ast, "the calling file is registered before the call site is recorded")
+
+
+def scan_total(repo: Repo, rep):
+    rep.rule(
+        "R-SCAN-TOTAL",
+        "the scan that decides which externals are still referenced is total: in _find_external.py no exception raised while a participating file is read or "
+        "parsed is swallowed (no handler around the per-file read / ast.parse that continues, passes or returns a partial result).  A file that cannot be "
+        "analysed must stop the session - counted as 'references nothing', `--inline-snapshot=trim` deletes the data it still references",
+    )
+    n = 0
+    m = repo.module("_find_external.py")
+    for f in m.funcs.values():
+        if not any(isinstance(c, ast.Call) and (norm(c.func).endswith("read_text") or norm(c.func) in ("ast.parse", "used_externals_in") or norm(c.func).endswith("used_externals_in")) for c in body_nodes(f.node)):
+            continue
+        for t in [x for x in body_nodes(f.node) if isinstance(x, ast.Try)]:
+            guarded = [c for s_ in t.body for c in ast.walk(s_) if isinstance(c, ast.Call) and (norm(c.func).endswith("read_text") or norm(c.func) == "ast.parse" or norm(c.func).endswith("used_externals_in") or norm(c.func).endswith("literal_eval") is False and False)]
+            if not guarded:
+                continue
+            for h in t.handlers:
+                n += 1
+                reraises = any(isinstance(x, ast.Raise) for s_ in h.body for x in ast.walk(s_))
+                if reraises:
+                    rep.ok("R-SCAN-TOTAL", f, h, "handler re-raises")
+                else:
+                    rep.violation(
+                        "R-SCAN-TOTAL",
+                        f,
+                        h,
+                        f"{f.qualname} swallows `{norm(h.type) if h.type is not None else 'every exception'}` raised while a test file is read / parsed and goes on: the file counts as referencing no external, "
+                        "so --inline-snapshot=trim removes the externals it still uses (a file with a BOM or another source encoding is enough)",
+                        construct=f"{f.qualname}:swallow",
+                    )
+    rep.count("handlers_around_the_scan", n)
+    if n == 0:
+        rep.ok("R-SCAN-TOTAL", repo.func("_find_external.py::used_externals"), None, "no exception handler around reading / parsing the participating files", site="src/inline_snapshot/_find_external.py: scan")
+
+
+def suffix_shape(repo: Repo, rep):
+    rep.rule(
+        "R-SUFFIX-SHAPE",
+        "writer/reader agreement on external names: DiscStorage recognises a not-yet-persisted file by `Path.stem.endswith('-new')`, and `stem` strips ONE "
+        "suffix; so every pattern that admits a name (`external.__init__`, the suffix check of outsource()) admits exactly one dot-part as suffix - the regex "
+        "has no repetition around a literal dot.  With `.tar.gz` accepted, `<hash>-new.tar.gz` has the stem `<hash>-new.tar`, is never renamed by persist() "
+        "and is pruned at the next session start while the test file references it",
+    )
+    import re as _re
+
+    try:
+        from re import _parser as sre_parse  # py3.11+
+    except ImportError:  # pragma: no cover
+        import sre_parse  # type: ignore
+    uses_stem = any(isinstance(x, ast.Attribute) and x.attr == "stem" for f in repo.module("_external.py").funcs.values() for x in body_nodes(f.node))
+    n = 0
+    for f in repo.module("_external.py").funcs.values():
+        for c in [x for x in body_nodes(f.node) if isinstance(x, ast.Call) and norm(x.func) in ("re.fullmatch", "re.match", "re.compile", "re.search") and x.args and isinstance(x.args[0], ast.Constant) and isinstance(x.args[0].value, str)]:
+            pat = c.args[0].value
+            if "\\." not in pat:
+                continue
+            n += 1
+            try:
+                tree = sre_parse.parse(pat)
+            except Exception as e:  # pragma: no cover
+                rep.undecided("R-SUFFIX-SHAPE", f"pattern {pat!r} not parsable: {e}")
+                continue
+
+            def dots_under_repeat(items, in_rep=False):
+                bad = False
+                for op, av in items:
+                    name = str(op)
+                    if name in ("MAX_REPEAT", "MIN_REPEAT"):
+                        lo, hi, sub = av
+                        rep_many = hi is None or str(hi) == "MAXREPEAT" or (isinstance(hi, int) and hi > 1)
+                        bad |= dots_under_repeat(sub, in_rep or rep_many)
+                    elif name == "SUBPATTERN":
+                        bad |= dots_under_repeat(av[3], in_rep)
+                    elif name == "BRANCH":
+                        for br in av[1]:
+                            bad |= dots_under_repeat(br, in_rep)
+                    elif name == "LITERAL" and av == ord(".") and in_rep:
+                        bad = True
+                return bad
+
+            if uses_stem and dots_under_repeat(list(tree)):
+                rep.violation("R-SUFFIX-SHAPE", f, c, f"the pattern {pat!r} in {f.qualname} admits suffixes with several dot-parts, but the storage finds `-new` files through Path.stem (one suffix stripped): such an external is referenced in the test file and never persisted", construct=f"{f.qualname}:multi-suffix")
+            else:
+                rep.ok("R-SUFFIX-SHAPE", f, c, f"pattern {pat!r}: one dot-part")
+    rep.floor("R-SUFFIX-SHAPE", "name patterns with a suffix part in _external.py", n, 1)
+
+
+def storage_no_cache(repo: Repo, rep):
+    rep.rule(
+        "R-STORAGE-NO-CACHE",
+        "_external.py keeps no memory of the storage outside the storage: no function mutates a module-level container (set / dict / list).  The files of the "
+        "storage change behind such a cache - prune_new_files() at every session start, remove() on trim - so 'already stored' remembered from an earlier "
+        "session of the same process makes outsource() skip the save and the reference is written with no data behind it",
+    )
+    m = repo.module("_external.py")
+    n = 0
+    bad = 0
+    for f in m.funcs.values():
+        n += 1
+        for x in body_nodes(f.node):
+            tgt = None
+            if isinstance(x, ast.Call) and isinstance(x.func, ast.Attribute) and x.func.attr in ("add", "append", "update", "setdefault", "extend", "discard", "remove", "pop", "clear") and isinstance(x.func.value, ast.Name):
+                tgt = x.func.value.id
+            if isinstance(x, (ast.Assign, ast.AugAssign)):
+                for t in x.targets if isinstance(x, ast.Assign) else [x.target]:
+                    if isinstance(t, ast.Subscript) and isinstance(t.value, ast.Name):
+                        tgt = t.value.id
+            if tgt and tgt in m.globals_assigned and tgt not in f.params and not any(isinstance(a, ast.Assign) and any(isinstance(tt, ast.Name) and tt.id == tgt for tt in a.targets) for a in body_nodes(f.node)):
+                bad += 1
+                rep.violation("R-STORAGE-NO-CACHE", f, x, f"{f.qualname} mutates the module-level `{tgt}`: what it remembers about the storage survives prune_new_files() / remove() and the next session of the same process", construct=f"{f.qualname}:{tgt}")
+    if not bad:
+        rep.ok("R-STORAGE-NO-CACHE", repo.func("_external.py::outsource"), None, f"{n} functions, no module-level container is mutated", site="src/inline_snapshot/_external.py: module-level state")
